@@ -15,7 +15,7 @@ EXPLANATION = (
     "probe renders must equal those of fresh instances on which only the configuration steps addressed to them are replayed, a fresh default "
     "instance must behave like a pristine one, the shared preset table must be unchanged, and references resolve only through a shared env."
 )
-BOUNDS = {"quick": "histories of 2 steps over the 14-call menu, 1 free character", "thorough": "histories of 3 steps, 1 free character"}
+BOUNDS = {"quick": "all histories of 2 steps over the 14-call menu (solver-chosen), concrete documents", "thorough": "all histories of 3 steps; histories of 2 steps starting with a parse/render step with 1 free character in the processed document"}
 OUTSIDE = "histories longer than 3; plugins holding their own state; concurrent use (C13)"
 ASSUMPTIONS = ["probe documents are fixed (they exercise references, links, containers, emphasis, tables, fences, typographic text)"]
 
@@ -25,7 +25,7 @@ STEPS = 14
 
 
 def _free(params):
-    fr = [Free("a", exclude="\r\0")]
+    fr = [Free("a", exclude="\r\0")] if params.get("free_char") else []
     for s in range(params["k"]):
         fr.append(Free(f"s{s}", kind="int", lo=0, hi=STEPS - 1))
     return fr
@@ -84,7 +84,8 @@ def _run(params, values):
         x, y = _fresh()
     shared_env: dict = {}
     shared_used = False
-    docA = "*x* [r] " + values["a"] + " `y`\n\n- " + values["a"] + "\n"
+    a = values.get("a", "z")
+    docA = "*x* [r] " + a + " `y`\n\n- " + a + "\n"
     trace = []
     try:
         for s in range(params["k"]):
@@ -160,11 +161,16 @@ HARNESSES = {
 
 
 def jobs(tier, seed):
-    k = 2 if tier == "quick" else 3
     jobs = []
-    # sharded by the first step
+    # sharded by the first step; quick: histories of 2 steps with concrete documents (the solver chooses the history);
+    # thorough: histories of 3 steps, and histories of 2 steps with a free character in the processed document
     for s0 in range(STEPS):
-        jobs.append({"harness": "history", "params": {"k": k, "first": s0}, "weight": 5, "cpu_cap": 3000, "wall_cap": 4000})
+        if tier == "quick":
+            jobs.append({"harness": "history", "params": {"k": 2, "first": s0}, "weight": 5, "cpu_cap": 3000, "wall_cap": 4000})
+        else:
+            jobs.append({"harness": "history", "params": {"k": 3, "first": s0}, "weight": 30, "cpu_cap": 9000, "wall_cap": 10000})
+            if s0 in (0, 3, 9, 11):
+                jobs.append({"harness": "history", "params": {"k": 2, "first": s0, "free_char": True}, "weight": 60, "cpu_cap": 9000, "wall_cap": 10000})
     return jobs
 
 
